@@ -76,12 +76,12 @@ def formSpec (L : Layout) (form : PForm) (E : Int) : PAns :=
 
 /-- C08 for the four public forms -/
 theorem forms_hold (L : Layout) (hL : L.valid) (radix : Nat) (hr : radix = 2 ∨ radix = 8 ∨ radix = 10 ∨ radix = 16)
-    (bytes : List Nat) (hb : ∀ b ∈ bytes, b < 256) (form : PForm) :
+    (bytes : List Nat) (form : PForm) :
     ∃ a, FromStr.parse L form radix bytes = some (.ok a false) ∧
       match parseExact radix L.f bytes with
       | some E => a = formSpec L form E
       | none => ∃ k, a = .err k ∧ k ≠ 3 := by
-  obtain ⟨r, hrun, hspec⟩ := holds L hL radix hr bytes hb
+  obtain ⟨r, hrun, hspec⟩ := holds L hL radix hr bytes
   refine ⟨parseForm L form bytes r, ?_, ?_⟩
   · unfold FromStr.parse; rw [hrun]; rfl
   · cases hE : parseExact radix L.f bytes with
